@@ -49,6 +49,7 @@ FUNCS = {
     "Valet.serviceReqs": (S, "Valet.serviceReqs"), "Valet.closeConnection": (S, "Valet.closeConnection"),
     "Porter.serviceStewards": (S, "Porter.serviceStewards"), "Porter.closeConnection": (S, "Porter.closeConnection"),
     "Patron.serviceResponse": (C, "Patron.serviceResponse"),
+    "Steward.respond": (S, "Steward.respond"), "Steward.pour": (S, "Steward.pour"), "Steward.refresh": (S, "Steward.refresh"),
 }
 TOPS = ["Parsent.parseMessage", "Parsent.parse", "Valet.serviceReqs", "Porter.serviceStewards", "Patron.serviceResponse"]
 FAMILIES = {
@@ -90,7 +91,7 @@ def _derive_attr_gens(repo, funcs):
                                 out.setdefault("%s.%s" % (cls, t.attr), [])      # known attribute, unanalysed generator
     return {k: v for k, v in out.items() if v}
 RECV = {"requestant": ["Requestant", "Parsent"], "respondent": ["Respondent", "Parsent"],
-        "eventSource": ["EventSource"]}
+        "eventSource": ["EventSource"], "steward": ["Steward"]}
 
 _cache = {}
 
@@ -271,6 +272,50 @@ def _valet_error_path(repo):
     return (not bad), "; ".join(bad) or "errored request: closeConnection(%s); continue - no break / return in the loop" % ca
 
 
+def _porter_error_path(repo):
+    fn = repo.func(S, "Porter.serviceStewards")
+    loop = _loop_of(fn)
+    if loop is None:
+        return False, "serviceStewards is not a single loop over the connections"
+    bad = list(_leaves_loop(loop))
+    if ast.unparse(loop.iter) not in ("self.stewards.items()", "list(self.stewards.items())"):
+        bad.append("loop does not range over self.stewards.items(): %s" % ast.unparse(loop.iter))
+    m = ast.unparse(loop.target).replace("(", "").replace(")", "").split(",")
+    ca, sw = (m[0].strip(), m[1].strip()) if len(m) == 2 else ("?", "?")
+    ended = [n for n in ast.walk(loop) if isinstance(n, ast.If) and ast.unparse(n.test) == "%s.requestant.ended" % sw]
+    if not ended:
+        bad.append("no `if %s.requestant.ended:` branch" % sw)
+    for n in ended[:1]:
+        first = n.body[0]
+        if not (isinstance(first, ast.If) and ast.unparse(first.test) == "%s.requestant.errored" % sw):
+            bad.append("`if %s.requestant.ended:` does not test .errored before responding" % sw)
+        else:
+            calls = [ast.unparse(c) for st in first.body for c in ast.walk(st) if isinstance(c, ast.Call)]
+            if "self.closeConnection(%s)" % ca not in calls:
+                bad.append("error branch does not call self.closeConnection(%s)" % ca)
+            if any(c.startswith("%s.respond(" % sw) for c in calls):
+                bad.append("error branch responds to the failed request")
+            if not isinstance(first.body[-1], ast.Continue):
+                bad.append("error branch does not go on with the next connection")
+    return (not bad), "; ".join(bad) or "errored request: closeConnection(%s); continue before any response - no break / return in the loop" % ca
+
+
+def _porter_close_is_local(repo):
+    fn = repo.func(S, "Porter.closeConnection")
+    bad = []
+    for n in ast.walk(fn):
+        if isinstance(n, ast.Subscript) and ast.unparse(n.slice) != "ca":
+            bad.append("subscript %s at line %d" % (ast.unparse(n), n.lineno))
+        if isinstance(n, (ast.For, ast.While)):
+            bad.append("loop at line %d" % n.lineno)
+        if isinstance(n, ast.Call) and isinstance(n.func, ast.Attribute) and n.func.attr in ("clear", "closeAll"):
+            bad.append("call %s at line %d" % (ast.unparse(n), n.lineno))
+    calls = [ast.unparse(c) for c in ast.walk(fn) if isinstance(c, ast.Call)]
+    if "self.servant.removeIx(ca)" not in calls:
+        bad.append("does not call self.servant.removeIx(ca)")
+    return (not bad), "; ".join(bad) or "only the steward keyed by ca is removed; servant.removeIx(ca)"
+
+
 def _close_connection_is_local(repo):
     """Valet.closeConnection(ca) touches only the entries keyed by ca"""
     fn = repo.func(S, "Valet.closeConnection")
@@ -331,6 +376,9 @@ REG.static_checks.append(("C32", "Parsent.parseMessage: every caught parse error
 REG.static_checks.append(("C32", "Valet.serviceReqs: an errored request closes its own connection and the loop goes on (no break / return)",
                           _valet_error_path))
 REG.static_checks.append(("C32", "Valet.closeConnection(ca) closes and removes only what is keyed by ca", _close_connection_is_local))
+REG.static_checks.append(("C32", "Porter.serviceStewards: an errored request closes its own connection before any response and the loop goes on",
+                          _porter_error_path))
+REG.static_checks.append(("C32", "Porter.closeConnection(ca) removes only what is keyed by ca", _porter_close_is_local))
 REG.static_checks.append(("C32", "Patron.serviceResponse: a parse error is recorded on the respondent, never re-raised",
                           _patron_records_error))
 
@@ -412,18 +460,25 @@ def _splits(rng, raw):
     return out
 
 
+class _Ix:
+    def __init__(self, ca):
+        self.ca, self.cutoff, self.timeout, self.rxbs, self.txes = ca, False, 0.0, bytearray(), []
+
+    def tx(self, data):
+        self.txes.append(bytes(data))
+
+    def serviceTxes(self):
+        pass
+
+
+def odict_():
+    from ioflo.aid.odicting import odict
+    return odict()
+
+
 def _mk_valet(serving, n):
     from ioflo.aid.odicting import odict
-
-    class Ix:
-        def __init__(self, ca):
-            self.ca, self.cutoff, self.timeout, self.rxbs, self.txes = ca, False, 0.0, bytearray(), []
-
-        def tx(self, data):
-            self.txes.append(bytes(data))
-
-        def serviceTxes(self):
-            pass
+    Ix = _Ix
 
     class Servant:
         name, eha = "double", ("127.0.0.1", 8080)
@@ -516,6 +571,38 @@ def native_search(root, rng, n):
             if msgs:
                 info.update(outcome="return", failed_clauses=["a malformed request only affects its own connection"], messages=msgs)
                 fails.append(info)
+        # the Porter server: three stewards, connection 1 receives the mutated request
+        for i in range(n // 2):
+            ev += 1
+            bad = mutate(rng, rng.choice(VALID_REQS))
+            info = {"inputs": {"mutated request on connection 1 of a Porter": repr(bad)}}
+            p = object.__new__(serving.Porter)
+            p.servant, p.stewards, p.dictable = _mk_valet(serving, 0).servant, odict_(), False
+            feeds = {0: _splits(rng, rng.choice(VALID_REQS)), 1: _splits(rng, bad), 2: _splits(rng, rng.choice(VALID_REQS))}
+            ixs = []
+            for j in range(3):
+                ca = ("10.0.1.%d" % j, 2000 + j)
+                ix = _Ix(ca)
+                ixs.append(ix)
+                p.servant.ixes[ca] = ix
+                p.stewards[ca] = serving.Steward(incomer=ix)
+            try:
+                for rnd in range(8):
+                    for j in (0, 1, 2):
+                        if feeds[j]:
+                            ixs[j].rxbs.extend(feeds[j].pop(0))
+                    p.serviceStewards()
+            except Exception as ex:
+                info.update(outcome="raise", exception=repr(ex), failed_clauses=["no exception escapes Porter.serviceStewards"])
+                fails.append(info)
+                continue
+            msgs = []
+            for j in (0, 2):
+                if not ixs[j].txes:
+                    msgs.append("connection %d (valid request) got no response next to the malformed one" % j)
+            if msgs:
+                info.update(outcome="return", failed_clauses=["a malformed request only affects its own connection"], messages=msgs)
+                fails.append(info)
         # client side: a Respondent fed a mutated response records the error instead of raising
         for i in range(n):
             ev += 1
@@ -544,5 +631,5 @@ def native_search(root, rng, n):
 
 
 REG.static_functions["C32"] = ["%s:%s" % v for v in FUNCS.values()]
-REG.native_searches.append(("C32", "mutated requests to a Valet with three connections; mutated responses to a Respondent",
+REG.native_searches.append(("C32", "mutated requests to a Valet and to a Porter with three connections; mutated responses to a Respondent",
                             native_search))
